@@ -1,6 +1,6 @@
 (* Executable entry point of the C08 model for the correspondence check:
    opcode, scalar parameters, input vectors -> output vectors (None = the model rejects the call). *)
-From PV Require Import Base.MachineInt Model.Znx Model.Limbs Model.LimbsBig Model.Flat.
+From PV Require Import Base.MachineInt Model.Znx Model.Limbs Model.LimbsBig Model.Flat Model.C08Encode.
 Open Scope Z_scope.
 
 Definition p (ps : list Z) (i : nat) : Z := nth i ps 0.
@@ -49,7 +49,7 @@ Definition run_c08_vec (code : Z) (ps : list Z) (vs : list (list Z)) : option (l
                           else map (wneg 64) o)
         end in
       one (col_op f rs as_ res a)
-  | _ => None
+  | _ => run_c08_enc code ps vs
   end.
 
 Definition run_c08 (code : Z) (ps : list Z) (vs : list (list Z)) : option (list (list Z)) :=
